@@ -64,13 +64,13 @@ impl Property for C11 {
             packaging_strategy(),
             comp_strategy(),
             nonempty_seq.clone(),
-            prop::collection::vec((comp_strategy(), nonempty_seq, prop_oneof![3 => Just(0u8), 1 => 1u8..5]).prop_map(|(comp, contents, id_class)| ExtraPack { comp, contents, id_class }), 0..=2),
+            prop::collection::vec((comp_strategy(), nonempty_seq, prop_oneof![3 => Just(0u8), 1 => 1u8..5]).prop_map(|(comp, contents, id_class)| ExtraPack { comp, contents, id_class, place: 0 }), 0..=2),
             dir_strategy(SizeClass::Small, SortMode::Sometimes, false, true),
         )
             .prop_map(|(packaging, comp, contents, mut extra, dir)| {
                 if packaging == Packaging::OneFile && extra.is_empty() {
                     // at least one separate pack
-                    extra.push(ExtraPack { comp: Comp::None, contents: contents.iter().take(2).cloned().collect(), id_class: 0 });
+                    extra.push(ExtraPack { comp: Comp::None, contents: contents.iter().take(2).cloned().collect(), id_class: 0, place: 0 });
                 }
                 Case { packaging, comp, contents, extra, dir }
             })
